@@ -23,10 +23,11 @@ import ast
 from typing import Any
 
 from ..engine.absint import Interp, Obj, _Raise
-from ..engine.cfg import CFG
+from ..engine.cfg import own_parts
 from ..engine.report import AnalysisError, Run
 from ..engine.resolver import Program, body_walk
-from ..engine.util import canon, canon_total, find_calls, method_call, node_writes, nodes_with_call, u
+from ..engine.util import canon, canon_total, find_calls, method_call, u
+from ._c06_util import Flow, indent_of, lifted, pruned, seg, spliced, stmt_patch, truth_atom
 
 STEPS = "timeseries.formula_engine._formula_steps"
 MF = f"{STEPS}:MetricFetcher"
@@ -34,9 +35,10 @@ FFM = "timeseries.formula_engine._formula_generators._fallback_formula_metric_fe
 
 
 class SelInterp(Interp):
-    def __init__(self) -> None:
+    def __init__(self, sync_params: list[str] | None = None) -> None:
         super().__init__()
         self.scn: dict[str, Any] = {}
+        self.sync_params = sync_params or []
 
     def reset(self) -> None:
         self.scn = {}
@@ -87,7 +89,8 @@ class SelInterp(Interp):
                 self.scn["fallback_receives"] = self.scn.get("fallback_receives", 0) + 1
                 return Obj("Sample", who="fallback_next")
             if fn[1] == "_synchronize_and_fetch_fallback":
-                self.scn["sync_args"] = [getattr(p, "cls", None) and p.fields.get("who", p.cls) for p in pos]
+                full = list(pos) + [kw[n] for n in self.sync_params[len(pos):] if n in kw]
+                self.scn["sync_args"] = [getattr(p, "cls", None) and p.fields.get("who", p.cls) for p in full]
                 if self.choose(2, "synchronised fallback sample exists") == 1:
                     self.scn["fb"] = True
                     return Obj("Sample", who="fallback")
@@ -108,9 +111,9 @@ class SelInterp(Interp):
 
 
 def check_sel(run: Run, prog: Program) -> None:
-    fn = prog.func(f"{MF}.fetch_next_with_fallback")
+    fn = spliced(prog, prog.func(f"{MF}.fetch_next_with_fallback"))
     run.analysed(fn.qual)
-    it = SelInterp()
+    it = SelInterp([p for p in prog.func(f"{MF}._synchronize_and_fetch_fallback").params if p != "self"])
 
     def make_args() -> dict[str, Any]:
         return {"self": Obj("self"), fn.params[1]: Obj("fallback")}
@@ -214,7 +217,7 @@ def _under_test(parents: dict[ast.AST, ast.AST], node: ast.AST, test_text: str) 
     cur = node
     while cur in parents:
         par = parents[cur]
-        if isinstance(par, ast.If) and u(par.test) == test_text and any(
+        if isinstance(par, ast.If) and canon(par.test) == canon(ast.parse(test_text, mode="eval").body) and any(
                 cur is s or any(cur is x for x in ast.walk(s)) for s in par.body):
             return True
         cur = par
@@ -222,65 +225,107 @@ def _under_test(parents: dict[ast.AST, ast.AST], node: ast.AST, test_text: str) 
 
 
 def check_lazy(run: Run, prog: Program) -> None:
-    fn = prog.func(f"{MF}._fetch_next")
-    run.analysed(fn.qual)
-    cfg = CFG(fn.node, fn.file)
-    starts = nodes_with_call(cfg, lambda c: method_call(c, "self._fallback", "start"))
+    """Decided per scenario on the CFG of _fetch_next (private helpers spliced in): the conditions
+    `self._fallback is None`, `self._fallback.is_running` and `self._is_value_valid(<received>.value)`
+    are the atoms; whatever their spelling (negated, named by a local, early return or else-branch),
+    a scenario cuts the branches it cannot take."""
+    raw = prog.func(f"{MF}._fetch_next")
+    run.analysed(raw.qual)
+    fl = Flow(prog, spliced(prog, raw))
+    cfg = fl.cfg
+    normal = lambda a, b, lab: not lab.startswith("exc:")  # noqa: E731
+
+    def is_fb(e: ast.AST, nid: int | None) -> bool:
+        o = fl.origin(e, nid)
+        return bool(o) and all(q.kind == "expr" and u(q.node) == "self._fallback" for q in o)
+
+    def awaited(c: ast.Call) -> bool:
+        return isinstance(fl._parent.get(id(c)), ast.Await)
+
+    starts = [nid for nid, c in fl.calls(lambda c: isinstance(c.func, ast.Attribute) and c.func.attr == "start")
+              if is_fb(c.func.value, nid)]  # type: ignore[union-attr]
     if len(starts) != 1:
-        run.violation("C19.LAZY", fn.qual, "self._fallback.start()", f"expected one start site, found {len(starts)}",
-                      node=fn.node, file=fn.file)
+        run.violation("C19.LAZY", raw.qual, "self._fallback.start()", f"expected one start site, found {len(starts)}",
+                      node=raw.node, file=raw.file)
         return
     st = starts[0]
-    run_tests = [t for t in cfg.nodes if t.kind == "test" and t.ast is not None
-                 and canon(t.ast) in (("truthy", "self._fallback.is_running"),)]
-    ok = len(run_tests) == 1
-    wit = None
-    if ok:
-        t = run_tests[0]
-        wit = cfg.path(cfg.entry, [st], avoid=[t.id])
-        t_true = cfg.reachable([m for m, lab in cfg.succ[t.id] if lab == "true"])
-        ok = wit is None and st not in t_true
-        # running side goes through the synchronised path
-        sync = nodes_with_call(cfg, lambda c: method_call(c, "self", "fetch_next_with_fallback"))
-        ok = ok and bool(sync) and [m for m, lab in cfg.succ[t.id] if lab == "true"] == sync[:1]
-    run.check(ok, "C19.LAZY", fn.qual, "start() only while not running; running -> synchronised fetch",
+    sync = [nid for nid, c in fl.calls(lambda c: method_call(c, "self", "fetch_next_with_fallback"))
+            if awaited(c) and len(c.args) + len(c.keywords) == 1 and is_fb((c.args + [k.value for k in c.keywords])[0], nid)]
+    recv = [(nid, c) for nid, c in fl.calls(lambda c: method_call(c, "self._stream", "receive")) if awaited(c)]
+    running_reads = [n.id for n in cfg.nodes if n.ast is not None and n.id in fl.live and any(
+        isinstance(x, ast.Attribute) and x.attr == "is_running" for part in own_parts(n) for x in ast.walk(part))]
+
+    def scenario(**assign: bool) -> Any:
+        def atom(e: ast.AST, nid: int) -> bool | None:
+            if isinstance(e, ast.Attribute) and e.attr == "is_running" and is_fb(e.value, nid):
+                return assign.get("running")
+            ta = truth_atom(e)
+            if ta is not None and is_fb(ta[0], nid):
+                cfgd = assign.get("configured")
+                return None if cfgd is None else ((not cfgd) if ta[1] else cfgd)
+            if isinstance(e, (ast.Name, ast.Attribute)) and is_fb(e, nid):
+                return assign.get("configured")
+            if isinstance(e, ast.Call) and method_call(e, "self", "_is_value_valid") and len(e.args) + len(e.keywords) == 1:
+                arg = (e.args + [k.value for k in e.keywords])[0]
+                o = fl.origin1(arg, nid)
+                if o is not None and o.kind == "expr" and isinstance(o.node, ast.Attribute) and o.node.attr == "value" \
+                        and fl.is_node_any(o.node.value, [c for _n, c in recv], o.nid):
+                    return assign.get("valid")
+            return None
+        return lifted(fl, atom)
+
+    # --- running: never (re)started, always the synchronised fetch
+    run_e = pruned(cfg, scenario(configured=True, running=True), normal_only=False)
+    wit = cfg.path(cfg.entry, [st], edge_ok=run_e)
+    wit2 = cfg.path(cfg.entry, [cfg.exit], avoid=sync, edge_ok=pruned(cfg, scenario(configured=True, running=True)))
+    ok = bool(running_reads) and bool(sync) and wit is None and wit2 is None
+    run.check(ok, "C19.LAZY", raw.qual, "start() only while not running; running -> synchronised fetch",
               "the fallback can be (re)started while it is already running, or a running fallback is "
-              "not consulted", node=fn.node, file=fn.file, path=cfg.describe_path(wit))
-    # validity predicate
-    valids = [t for t in cfg.nodes if t.kind == "test" and t.ast is not None and "valid" in t.label.lower()
-              or (t.kind == "test" and t.ast is not None and "next_value.value" in t.label)]
-    ok = len(valids) == 1 and u(valids[0].ast).replace(" ", "") == "self._is_value_valid(next_value.value)"
-    run.check(ok, "C19.LAZY", fn.qual, valids[0].ast if valids else "validity test",
+              "not consulted", node=raw.node, file=raw.file, path=cfg.describe_path(wit or wit2))
+    # --- not running: the received primary sample is judged by the shared validity predicate
+    idle = pruned(cfg, scenario(configured=True, running=False), normal_only=False)
+    prim = [(nid, c) for nid, c in recv if cfg.path(cfg.entry, [nid], edge_ok=idle) is not None]
+    after = [m for nid, _c in prim for m, lab in cfg.succ[nid] if normal(nid, m, lab)]
+    valid_e = pruned(cfg, scenario(configured=True, running=False, valid=True))
+    invalid_e = pruned(cfg, scenario(configured=True, running=False, valid=False))
+    # an invalid sample cannot be returned without starting the fallback -- unless the branch is decided by
+    # something other than _is_value_valid(<received>.value)
+    wit = None
+    for m in after:
+        wit = wit or (cfg.path(m, [cfg.exit], avoid=[st], edge_ok=invalid_e) if m != st else None)
+    ok = len(prim) == 1 and bool(after) and wit is None
+    run.check(ok, "C19.LAZY", raw.qual, "validity of the received primary decides",
               "the decision to start the fallback does not use the shared validity predicate "
               "_is_value_valid(primary.value) (None / NaN / inf): primaries that are missing in another "
-              "encoding never start the fallback", node=fn.node, file=fn.file)
+              "encoding never start the fallback", node=raw.node, file=raw.file, path=cfg.describe_path(wit))
     if ok:
-        v = valids[0]
-        good = cfg.reachable([m for m, lab in cfg.succ[v.id] if lab == "true"])
-        run.check(st not in good and cfg.exit in good, "C19.LAZY", fn.qual, "valid primary -> returned, fallback not started",
-                  "a valid primary sample starts the fallback (or is not returned)", node=fn.node, file=fn.file)
-        bad = cfg.reachable([m for m, lab in cfg.succ[v.id] if lab == "false"])
-        run.check(st in bad, "C19.LAZY", fn.qual, "invalid primary -> fallback started",
-                  "an invalid primary sample does not start the fallback", node=fn.node, file=fn.file)
-    # a failing primary (handler path) reaches start()
-    recv = nodes_with_call(cfg, lambda c: method_call(c, "self._stream", "receive"))
-    for r in recv:
+        good = cfg.reachable(after, edge_ok=valid_e)
+        rets = [r for r in fl.returns() if r in good]
+        run.check(st not in good and bool(rets) and all(
+            cfg.nodes[r].ast.value is not None and fl.is_node(cfg.nodes[r].ast.value, prim[0][1], r) for r in rets),  # type: ignore[union-attr]
+            "C19.LAZY", raw.qual, "valid primary -> returned, fallback not started",
+            "a valid primary sample starts the fallback (or is not returned)", node=raw.node, file=raw.file)
+        bad = cfg.reachable(after, edge_ok=invalid_e)
+        run.check(st in bad, "C19.LAZY", raw.qual, "invalid primary -> fallback started",
+                  "an invalid primary sample does not start the fallback", node=raw.node, file=raw.file)
+    # a failing primary (handler path) always reaches start()
+    for r, _c in prim:
         for m, lab in cfg.succ[r]:
             if lab == "exc:E" and cfg.nodes[m].kind == "handler":
-                run.check(st in cfg.reachable([m]), "C19.LAZY", fn.qual, "failed primary -> fallback started",
-                          "a failing primary stream does not start the fallback", node=cfg.nodes[m].ast, file=fn.file)
-    # no fallback configured: plain primary
-    none_tests = [t for t in cfg.nodes if t.kind == "test" and t.ast is not None
-                  and canon(t.ast) == ("is", frozenset({"self._fallback", "None"}))]
-    ok = len(none_tests) == 1 and cfg.path(cfg.entry, starts + [t.id for t in run_tests], avoid=[none_tests[0].id]) is None
-    run.check(ok, "C19.LAZY", fn.qual, "if self._fallback is None: primary only",
-              "the fallback is dereferenced without checking that one is configured", node=fn.node, file=fn.file)
+                wit = cfg.path(m, [cfg.exit], avoid=[st], edge_ok=normal)
+                run.check(st in cfg.reachable([m]) and wit is None, "C19.LAZY", raw.qual, "failed primary -> fallback started",
+                          "a failing primary stream does not start the fallback", node=cfg.nodes[m].ast, file=raw.file,
+                          path=cfg.describe_path(wit))
+    # no fallback configured: plain primary, the fallback is never dereferenced
+    none_e = pruned(cfg, scenario(configured=False), normal_only=False)
+    wit = cfg.path(cfg.entry, starts + sync + running_reads, edge_ok=none_e)
+    plain = cfg.path(cfg.entry, [cfg.exit], edge_ok=pruned(cfg, scenario(configured=False)))
+    run.check(wit is None and plain is not None, "C19.LAZY", raw.qual, "if self._fallback is None: primary only",
+              "the fallback is dereferenced without checking that one is configured", node=raw.node, file=raw.file,
+              path=cfg.describe_path(wit))
     # fetch_next stores what _fetch_next returned, and returns that very sample
-    from ._c06_util import Flow
-
     fnx = prog.func(f"{MF}.fetch_next")
     fx = Flow(prog, fnx)
-    normal = lambda a, b, lab: not lab.startswith("exc:")  # noqa: E731
     got = [(nid, c) for nid, c in fx.calls(lambda c: method_call(c, "self", "_fetch_next"))
            if isinstance(fx._parent.get(id(c)), ast.Await)]
     stores = [n.id for n in fx.cfg.nodes if n.id in fx.live and any(
@@ -303,27 +348,50 @@ def check_lazy(run: Run, prog: Program) -> None:
 def check_sync(run: Run, prog: Program, rule: str = "C19.SYNC") -> None:
     fn = prog.func(f"{MF}._synchronize_and_fetch_fallback")
     run.analysed(fn.qual)
-    cfg = CFG(fn.node, fn.file)
+    fl = Flow(prog, fn)
+    cfg = fl.cfg
     prim, fb = fn.params[1], fn.params[2]
     LATEST = "self._latest_fallback_sample"
-    recv = nodes_with_call(cfg, lambda c: method_call(c, fb, "receive"))
+    PTS = f"{prim}.timestamp"
+
+    def is_param(e: ast.AST, nid: int, name: str) -> bool:
+        o = fl.origin(e, nid)
+        return bool(o) and all(q.kind == "param" and q.name == name for q in o)
+
+    def roles(test: ast.AST, nid: int) -> dict[str, str]:
+        """Operands that denote the primary sample's timestamp (directly or through a local; the
+        parameter is never re-bound) are read as `<primary>.timestamp`.  The cached fallback sample is
+        mutable state: only a direct read of it counts."""
+        out: dict[str, str] = {}
+        for x in ast.walk(test):
+            if isinstance(x, (ast.Name, ast.Attribute)) and u(x) != PTS:
+                o = fl.origin(x, nid)
+                if o and all(q.kind == "expr" and isinstance(q.node, ast.Attribute) and q.node.attr == "timestamp"
+                             and is_param(q.node.value, q.nid, prim) for q in o):  # type: ignore[arg-type]
+                    out[u(x)] = PTS
+        return out
+
+    recv = [nid for nid, c in fl.calls(lambda c: isinstance(c.func, ast.Attribute) and c.func.attr == "receive")
+            if is_param(c.func.value, nid, fb)]  # type: ignore[union-attr]
     if len(recv) < 2:
         raise AnalysisError(f"{fn.qual}: expected the initial and the catch-up receive, found {len(recv)}")
     for r in recv:
         s = cfg.nodes[r].ast
-        ok = isinstance(s, ast.Assign) and u(s.targets[0]) == LATEST and cfg.is_await(r)
+        ok = isinstance(s, (ast.Assign, ast.AnnAssign)) and u(s.targets[0] if isinstance(s, ast.Assign) else s.target) == LATEST \
+            and cfg.is_await(r) and isinstance(s.value, ast.Await)
         run.check(ok, rule, fn.qual, s,
                   "a sample read from the fallback stream is not stored in _latest_fallback_sample at once: "
                   "if this call returns early the sample is lost and the fallback can never catch up with "
                   "the primary (unbounded start-up delay)", node=s, file=fn.file)
     # primary stream is never touched here
-    prim_recv = find_calls(fn.node, lambda c: isinstance(c.func, ast.Attribute) and c.func.attr in ("receive", "fetch_next")
-                           and u(c.func.value) != fb)
+    prim_recv = [c for nid, c in fl.calls(lambda c: isinstance(c.func, ast.Attribute) and c.func.attr in ("receive", "fetch_next"))
+                 if not is_param(c.func.value, nid, fb)]  # type: ignore[union-attr]
     run.check(not prim_recv, rule, fn.qual, "only the fallback stream is advanced",
               "the synchronisation advances something other than the fallback stream", node=fn.node, file=fn.file)
-    older = [t for t in cfg.nodes if t.kind == "test" and t.ast is not None
-             and canon_total(t.ast) == ("<", f"{prim}.timestamp", f"{LATEST}.timestamp")]
-    loops = [w for w in cfg.nodes if w.kind == "while" and canon_total(w.ast.test) == ("<", f"{LATEST}.timestamp", f"{prim}.timestamp")]  # type: ignore[union-attr]
+    older = [t for t in cfg.nodes if t.kind == "test" and t.ast is not None and t.id in fl.live
+             and canon_total(t.ast, subst=roles(t.ast, t.id)) == ("<", PTS, f"{LATEST}.timestamp")]
+    loops = [w for w in cfg.nodes if w.kind == "while" and w.id in fl.live
+             and canon_total(w.ast.test, subst=roles(w.ast.test, w.id)) == ("<", f"{LATEST}.timestamp", PTS)]  # type: ignore[union-attr]
     ok = len(older) == 1 and len(loops) == 1
     run.check(ok, rule, fn.qual, "primary older -> None; loop while primary newer",
               "the three-way relation of primary vs fallback timestamp is not handled as: older -> None, "
@@ -371,8 +439,34 @@ def check_buf(run: Run, prog: Program) -> None:
               "the fallback engine's receiver is created with a non-default capacity: fallback samples "
               "that arrive before the primary sample of their timestamp is consumed can be dropped",
               node=fn.node, file=fn.file)
-    txt = u(fn.node).replace(" ", "")
-    ok = "engine=self._formula_generator.generate()" in txt and "self._receiver=self._formula_engine.new_receiver(" in txt
+    fl = Flow(prog, spliced(prog, fn))
+    gens = fl.calls(lambda c: method_call(c, "self._formula_generator", "generate") and not c.args and not c.keywords)
+    nrx = fl.calls(lambda c: isinstance(c.func, ast.Attribute) and c.func.attr == "new_receiver")
+    ok = len(gens) == 1 and len(nrx) == 1
+
+    def stores(attr: str) -> list[tuple[int, ast.AST]]:
+        out = []
+        for n in fl.cfg.nodes:
+            a = n.ast
+            if n.id in fl.live and n.kind == "stmt" and isinstance(a, (ast.Assign, ast.AnnAssign)) and a.value is not None:
+                tgts = a.targets if isinstance(a, ast.Assign) else [a.target]
+                if any(isinstance(t, ast.Attribute) and t.attr == attr and u(t.value) == "self" for t in tgts):
+                    out.append((n.id, a.value))
+        return out
+
+    if ok:
+        gen = gens[0][1]
+        rn, rc = nrx[0]
+        eng_st, rx_st = stores("_formula_engine"), stores("_receiver")
+        base = rc.func.value  # type: ignore[union-attr]
+        # the receiver is taken from the engine generated here: either the local holding it or the
+        # attribute it was just stored in
+        via_attr = u(base) == "self._formula_engine" and len(eng_st) == 1 and fl.cfg.path(
+            fl.cfg.entry, [rn], avoid=[eng_st[0][0]]) is None
+        ok = len(eng_st) == 1 and fl.is_node(eng_st[0][1], gen, eng_st[0][0]) \
+            and (via_attr or fl.is_node(base, gen, rn)) \
+            and len(rx_st) == 1 and fl.is_node(rx_st[0][1], rc, rx_st[0][0]) \
+            and fl.cfg.path(fl.cfg.entry, [fl.cfg.exit], avoid=[rx_st[0][0]], edge_ok=lambda a, b, lab: not lab.startswith("exc:")) is None
     run.check(ok, "C19.BUF", fn.qual, "engine generated lazily in start()", "start() does not create the "
               "fallback engine and its receiver", node=fn.node, file=fn.file)
     ir = prog.func(f"{FFM}:FallbackFormulaMetricFetcher.is_running")
@@ -382,24 +476,51 @@ def check_buf(run: Run, prog: Program) -> None:
               "is_running does not reflect whether start() has created the receiver", node=ir.node, file=ir.file)
 
 
-CONTROLS = [
-    ("validity test inverted", STEPS,
-     "        if self._is_value_valid(primary.value):\n            return primary\n        return fallback",
-     "        if not self._is_value_valid(primary.value):\n            return primary\n        return fallback", "C19.SEL"),
-    ("fallback restarted every round", STEPS,
-     "        if self._fallback.is_running:\n            return await self.fetch_next_with_fallback(self._fallback)\n", "", "C19.LAZY"),
-    ("catch-up advances the primary", STEPS,
-     "        while primary_fetcher_sample.timestamp > self._latest_fallback_sample.timestamp:\n            try:\n                self._latest_fallback_sample = await fallback_fetcher.receive()",
-     "        while primary_fetcher_sample.timestamp > self._latest_fallback_sample.timestamp:\n            try:\n                primary_fetcher_sample = await self._stream.receive()",
-     "C19.SYNC"),
-    ("None-only validity when starting the fallback", STEPS,
-     "            if self._is_value_valid(next_value.value):\n                return next_value",
-     "            if next_value.value is not None:\n                return next_value", "C19.LAZY"),
-    ("tiny fallback receiver", FFM, "self._formula_engine.new_receiver()", "self._formula_engine.new_receiver(max_size=1)", "C19.BUF"),
-    ("older-test only on first fetch", STEPS,
-     "        if primary_fetcher_sample.timestamp < self._latest_fallback_sample.timestamp:\n            return None\n",
-     "", "C19.SYNC"),
-]
+def build_controls(prog: Program) -> list[tuple[str, str, str, str, str]]:
+    """Seeded in-memory controls, cut out of the live source at structurally located anchors (so they
+    survive renamed locals, changed log texts, introduced locals): each breaks one obligation."""
+    out: list[tuple[str, str, str, str, str]] = []
+
+    def add(name: str, module: str, patch: tuple[str, str] | None, rule: str) -> None:
+        if patch is not None:
+            out.append((name, module, patch[0], patch[1], rule))
+
+    fw = prog.func(f"{MF}.fetch_next_with_fallback")
+    for c in find_calls(fw.node, lambda c: method_call(c, "self", "_is_value_valid"))[:1]:
+        txt = seg(fw.module, c)
+        add("validity test inverted", STEPS, stmt_patch(fw, c, lambda t, txt=txt: t.replace(txt, f"(not {txt})", 1)), "C19.SEL")
+    fn = prog.func(f"{MF}._fetch_next")
+    for s_ in fn.node.body:
+        if isinstance(s_, ast.If) and "is_running" in u(s_.test) and not s_.orelse:
+            add("fallback restarted every round", STEPS, stmt_patch(fn, s_, lambda t: ""), "C19.LAZY")
+            break
+    for c in find_calls(fn.node, lambda c: method_call(c, "self", "_is_value_valid") and len(c.args) == 1)[:1]:
+        txt, arg = seg(fn.module, c), seg(fn.module, c.args[0])
+        add("None-only validity when starting the fallback", STEPS,
+            stmt_patch(fn, c, lambda t, txt=txt, arg=arg: t.replace(txt, f"({arg} is not None)", 1)), "C19.LAZY")
+    sy = prog.func(f"{MF}._synchronize_and_fetch_fallback")
+    prim = sy.params[1] if len(sy.params) > 1 else "primary"
+    for w in (x for x in sy.node.body if isinstance(x, ast.While)):
+        for a in (x for x in ast.walk(w) if isinstance(x, ast.Assign) and isinstance(x.value, ast.Await)
+                  and isinstance(x.value.value, ast.Call) and method_call(x.value.value, None, "receive")):
+            add("catch-up advances the primary", STEPS, stmt_patch(
+                sy, a, lambda t, prim=prim: f"{indent_of(t)}{prim} = await self._stream.receive()\n"), "C19.SYNC")
+            break
+        break
+    for s_ in sy.node.body:
+        if isinstance(s_, ast.If) and "timestamp" in u(s_.test) and "None" not in u(s_.test) and len(s_.body) == 1 \
+                and isinstance(s_.body[0], ast.Return) and u(s_.body[0].value) == "None" and not s_.orelse:
+            add("older-test only on first fetch", STEPS, stmt_patch(sy, s_, lambda t: ""), "C19.SYNC")
+            break
+    stt = prog.func(f"{FFM}:FallbackFormulaMetricFetcher.start")
+    for c in find_calls(stt.node, lambda c: isinstance(c.func, ast.Attribute) and c.func.attr == "new_receiver")[:1]:
+        txt = seg(stt.module, c)
+        add("tiny fallback receiver", FFM, stmt_patch(
+            stt, c, lambda t, txt=txt, c=c: t.replace(txt, seg(stt.module, c.func) + "(max_size=1)", 1)), "C19.BUF")
+    if len(out) < 6:
+        raise AnalysisError(f"C19: only {len(out)} of 6 seeded controls could be derived from the source "
+                            f"({[o[0] for o in out]})")
+    return out
 
 
 def run_rules(run: Run, prog: Program) -> None:
@@ -424,7 +545,7 @@ def check(run: Run, prog: Program, tier: str) -> str:
     run.floor("C19.SYNC", 8)
     from ..engine.controls import run_controls
 
-    run_controls(run, CONTROLS, run_rules, tier)
+    run_controls(run, [] if run.violations else build_controls(prog), run_rules, tier)
     run.assume("Python semantics: the expression of an `except` clause is evaluated only when an "
                "exception reaches it and must then be a class or tuple of classes")
     run.undecided("length of the start-up delay; behaviour when the fallback stream skips a timestamp")
